@@ -247,32 +247,32 @@ def run(ctx: Context, rep) -> None:
         "`updates`, directories are grouped in an insertion-ordered dict "
         "filled in update order, merged in that order and re-attached in "
         "that order")
-    mg = ctx.fn("sedpack.io.merge_shard_infos:merge_shard_infos")
-    comps = [n for n in mg.body_nodes() if isinstance(n, ast.ListComp) and
-             dotted(n.generators[0].iter) == "updates"]
-    rep.ob("C03.merge", len(comps) == 2 and all(
-        dotted(c.elt) == dotted(c.generators[0].target) for c in comps),
+    from sa import collalg
+    from sa.rules.c08 import merge_terms
+    mt = merge_terms(ctx)
+    mg = mt["mg"]
+    children = mt["children"]
+    bad = collalg.reordering_on_path(children)
+    rep.ob("C03.merge", not bad, loc=mg.loc(), where=mg.qualname,
+           construct="children = " + collalg.pretty(children)[:140] + (
+               f" :: {bad}" if bad else ""),
+           message="the re-attached children derive from `updates` through "
+           "order-preserving steps only (filter, map, concat, insertion-"
+           "ordered grouping; no sorted/reversed/set iteration)")
+    srcs = collalg.sources(children)
+    rep.ob("C03.merge", "updates" in srcs and srcs <= {
+        "updates", mt["obj"] + ".children_shard_lists"}, loc=mg.loc(),
+           where=mg.qualname, construct=f"sources: {sorted(srcs)}",
+           message="the order is that of `updates` followed by the already "
+           "known children")
+    G = mt["group"]
+    rep.ob("C03.merge", G is not None and G[1][0] == "emptydict" and
+           G[1][1].startswith(("dict", "defaultdict", "OrderedDict")),
            loc=mg.loc(), where=mg.qualname,
-           construct=f"{len(comps)} order-preserving partitions of `updates`",
-           message="partitions keep update order")
-    ru = [n for n in mg.body_nodes() if isinstance(n, (ast.Assign,
-                                                       ast.AnnAssign))
-          and dotted(n.targets[0] if isinstance(n, ast.Assign) else n.target)
-          == "recursively_update"]
-    rep.ob("C03.merge", len(ru) == 1 and ast.unparse(ru[0].value) ==
-           "defaultdict(list)", loc=mg.loc(), where=mg.qualname,
-           construct=short(ru[0]) if ru else "<none>",
-           message="directories are grouped in an insertion-ordered mapping")
-    mdef = [n for n in mg.body_nodes() if isinstance(n, (ast.Assign,
-                                                         ast.AnnAssign))
-            and dotted(n.targets[0] if isinstance(n, ast.Assign) else
-                       n.target) == "merged"]
-    ok = len(mdef) == 1 and isinstance(mdef[0].value, ast.DictComp) and \
-        ast.unparse(mdef[0].value.generators[0].iter) == \
-        "recursively_update.items()" and not mdef[0].value.generators[0].ifs
-    rep.ob("C03.merge", ok, loc=mg.loc(), where=mg.qualname,
-           construct=short(mdef[0], 80) if mdef else "<none>",
-           message="merged children keep the grouping order")
+           construct="grouping into " + (collalg.pretty(G[1]) if G is not None
+                                         else "<none>"),
+           message="directories are grouped in an insertion-ordered mapping "
+           "filled in update order")
 
     rustrules.check_rotation(ctx, rep, "C03.rust")
 
